@@ -3,6 +3,7 @@
 R1 encoder and decoder of a pair use the same codec constant; R2 encoders take
 their input through into_bitstr + bytestr; R3 invalid text yields nil."""
 from ..core import callee_of, expr_walk, expr_str, return_defs, short, const_str, MissingAnchor, simplify
+from ..pathq import blocks_after as blocks_after_
 from .. import inline
 
 _V = [None]
@@ -232,7 +233,9 @@ def check_decoder(rep, fx, name, dec):
     # of a value computed from the text decides whether the library is asked at all
     from ..pathq import edge_guards
     LENIENT = ('base32::decode', 'z85::decode')
-    for h in [f] + [fx.fns[r] for r in fx.reachable_from([dec]) if r.startswith('base_ext::') and r != dec and r in fx.fns and '{closure' not in r]:
+    # (judged in the function the call stands in, as written: in a view with the vetting helper spliced in, the helper's early
+    # returns are several ways into the call and no single branch stands for the test)
+    for h in [fx.fns[dec]] + [fx.fns[r] for r in fx.reachable_from([dec]) if r.startswith('base_ext::') and r != dec and r in fx.fns and '{closure' not in r]:
         for bb, t in h.calls():
             c = callee_of(t) or ''
             if c not in LENIENT:
@@ -287,6 +290,21 @@ def check_decoder(rep, fx, name, dec):
                 a = h.expr_of_operand(t2['args'][0])
                 if any(isinstance(x, tuple) and x[0] == 'call' and 'decode' in (x[1]).lower() for x in expr_walk(a)):
                     maps = True
+    if not maps:
+        # ... or by a `match` on the library's result whose failure arm builds the Err
+        from ..pathq import error_blocks as _eb
+        for h in units:
+            errb = _eb(h)
+            for b2 in h.reachable_blocks():
+                t2 = h.blocks[b2]['term']
+                if t2['k'] != 'switch':
+                    continue
+                d = h.expr_of_operand(t2['discr'])
+                if isinstance(d, tuple) and d[0] == 'discr' and any(isinstance(x, tuple) and x[0] == 'call' and 'decode' in x[1].lower()
+                                                                    and not x[1].startswith('base_ext::') for x in expr_walk(d[1])):
+                    arms = [tg for _, tg in t2['targets']] + ([t2['otherwise']] if t2.get('otherwise') is not None else [])
+                    if any(tg in errb or (blocks_after_(h, tg) & errb) for tg in arms):
+                        maps = True
     rep.add('C18.R3', key + ':helper-maps-failure', maps,
             'library None/Err is mapped to Err and propagated to the word, which turns it into nil' if maps else
             'the failure value of the library decode call is not mapped to an error on the way to %s' % name, dec, f.j['span'])
